@@ -44,7 +44,7 @@ Proof. exact (failed_lookup_rejects store async_store). Qed.
 
 (* and every invariant (registry, refinement of the abstract machine, legitimacy of accepted actions)
    holds for asynchronous stores too: [run_good] quantifies over async_store *)
-Theorem C14_good_always : forall h, Good store async_store (run h).
+Theorem C14_good_always : forall h, Good (srow store) async_store (run h).
 Proof. exact (good_always bname store async_store). Qed.
 
 (* ---- over whole histories ----
@@ -75,7 +75,7 @@ Variable store : ident -> lookup.
    OP_AUTH (i, digest) is a row r with digest = SHA1(nonce ++ secret of r), the connection is authenticated as (i, r) and
    process_pending runs over the parked buffer; if that holds well-formed requests permitted under r (and an incomplete
    tail), every one of them is accepted, in order, the connection stays healthy and only the tail stays buffered *)
-Theorem C14_verdict_accepts_parked : forall q s i r post rest more, Good store true s -> healthy s q ->
+Theorem C14_verdict_accepts_parked : forall q s i r post rest more, Good (srow store) true s -> healthy s q ->
   pending (conns s q) = (i, sha1 (nonce (conns s q) ++ r_secret r)) :: more ->
   buf (conns s q) = concat (map enc post) ++ rest -> next ParamsOK.limitP rest = NeedMore -> Forall wf post -> wb_plain i r post ->
   let s' := do_lookup_done store true q (RLook (LRow r)) s in
